@@ -10,11 +10,11 @@ run_one() {
   name=$(basename $d); prop=${name%%-*}
   R=/scratch/seed/$name; V=/scratch/seedv/$name
   rm -rf $R $V; mkdir -p $V; cp -r /repo $R; rm -rf $R/.git
-  ln -s /verif/contracts $V/contracts; cp /verif/known_findings.txt $V/ 2>/dev/null
+  cp -r /verif/contracts $V/contracts; cp /verif/MANIFEST.json $V/; cp /verif/known_findings.txt $V/ 2>/dev/null
   if ! ( cd $R && git apply $d/patch.diff 2>/dev/null ); then echo "$name: patch does not apply"; rm -rf $R $V; return; fi
   res=""
   for p in $prop $extra; do
-    out=$(timeout 1200 /verif/bin/govc check --repo $R --verif $V --property $p --tier quick 2>&1)
+    out=$(timeout 1200 ${GOVC:-/verif/bin/govc} check --repo $R --verif $V --property $p --tier quick 2>&1)
     nviol=$(echo "$out" | grep -c "^VIOLATION")
     nconf=$(echo "$out" | grep "^VIOLATION" | grep -vc "no-failing-input-found")
     first=$(echo "$out" | grep "^VIOLATION" | head -1 | sed 's/.*obligation=//' | cut -c1-90)
